@@ -1,0 +1,211 @@
+//go:build verif
+
+package serveruser
+
+import (
+	"github.com/enfein/mieru/v3/pkg/appctl/appctlpb"
+	"github.com/enfein/mieru/v3/pkg/cipher"
+)
+
+// Exports for the external verification harness (property C07). Add-only; compiled only
+// with -tags verif. Nothing here changes the behaviour of the package: every function
+// calls the unexported function it names.
+
+const (
+	VerifSourceUserCacheBucketCount = sourceUserCacheBucketCount
+	VerifSourceUserCacheWays        = sourceUserCacheWays
+	VerifSourceUserCacheUsers       = sourceUserCacheUsers
+	VerifSourceUserCacheLockStripes = sourceUserCacheLockStripes
+	VerifSourceUserCacheLifeSeconds = sourceUserCacheLifeSeconds
+	VerifMetadataLength             = metadataLength
+
+	VerifMatchUnknown          = int(matchUnknown)
+	VerifMatchCachedHint       = int(matchCachedHint)
+	VerifMatchRegistryHint     = int(matchRegistryHint)
+	VerifMatchCachedFallback   = int(matchCachedFallback)
+	VerifMatchRegistryFallback = int(matchRegistryFallback)
+)
+
+// VerifState is one immutable user generation (the package's *state).
+type VerifState struct{ s *state }
+
+// VerifSlot is one user slot of a cache entry.
+type VerifSlot struct {
+	ID   uint32
+	Tick uint32
+}
+
+// VerifResult is the projection of discoveryResult the harness compares.
+type VerifResult struct {
+	OK       bool
+	UserID   uint32
+	UserName string // userContext.UserName
+	Policy   string // policy.name
+	Origin   int
+	Attempts int
+	Block    cipher.BlockCipher
+	Plain    []byte
+	Gen      *VerifState // generation recorded in the result (nil if none)
+}
+
+func verifResult(r discoveryResult) VerifResult {
+	out := VerifResult{
+		OK:       r.block != nil,
+		UserID:   r.userID,
+		UserName: r.userContext.UserName,
+		Policy:   r.policy.name,
+		Origin:   int(r.origin),
+		Attempts: r.attempts,
+		Block:    r.block,
+		Plain:    r.decryptedMetadata,
+	}
+	if r.generation != nil {
+		out.Gen = &VerifState{s: r.generation}
+	}
+	return out
+}
+
+// VerifBuildState calls buildState. When tick is not nil the generation's cache is replaced
+// by newSourceUserCacheWithTick(stats, tick) (same constructor, injected clock).
+func VerifBuildState(users map[string]*appctlpb.User, tick func() uint32) *VerifState {
+	stats := &sourceUserCacheStats{}
+	s := buildState(users, stats)
+	if tick != nil {
+		s.cache = newSourceUserCacheWithTick(stats, tick)
+	}
+	return &VerifState{s: s}
+}
+
+// Same reports pointer identity of two generations.
+func (v *VerifState) Same(o *VerifState) bool {
+	if v == nil || o == nil {
+		return v == nil && o == nil
+	}
+	return v.s == o.s
+}
+
+// Users returns (id, name, credential) of the compiled users in registry order.
+func (v *VerifState) Users() (ids []uint32, names []string, creds [][]byte) {
+	for i := range v.s.users {
+		u := &v.s.users[i]
+		ids = append(ids, u.id)
+		names = append(names, u.name)
+		creds = append(creds, append([]byte(nil), u.credential[:]...))
+	}
+	return
+}
+
+func VerifSourceFromKey(key [16]byte, valid bool) Source { return Source{key: key, valid: valid} }
+
+func VerifSourceKey(s Source) ([16]byte, bool) { return s.key, s.valid }
+
+func VerifBucketIndex(key [16]byte) uint32 { return sourceUserCacheBucketIndex(key) }
+
+func VerifAge(now, then uint32) uint32 { return sourceUserCacheAge(now, then) }
+
+func VerifExpired(now, then uint32) bool { return sourceUserCacheExpired(now, then) }
+
+// Lookup calls cache.lookup.
+func (v *VerifState) Lookup(key [16]byte) []uint32 {
+	ids, n := v.s.cache.lookup(key)
+	return append([]uint32(nil), ids[:n]...)
+}
+
+// Record calls cache.recordAuthenticated.
+func (v *VerifState) Record(key [16]byte, userID uint32) {
+	v.s.cache.recordAuthenticated(key, userID)
+}
+
+// Retire calls cache.retire.
+func (v *VerifState) Retire() { v.s.cache.retire() }
+
+// Retired reports whether the cache table is detached.
+func (v *VerifState) Retired() bool { return v.s.cache.loadTable() == nil }
+
+// Plant stores a hand-built entry in the given way of the key's bucket (stale ids,
+// duplicate ids, arbitrary ticks). Returns false when the table is detached.
+func (v *VerifState) Plant(key [16]byte, way int, lastActive uint32, slots []VerifSlot) bool {
+	table := v.s.cache.loadTable()
+	if table == nil || way < 0 || way >= sourceUserCacheWays {
+		return false
+	}
+	e := &sourceUserCacheEntry{key: key}
+	e.lastActive.Store(lastActive)
+	for i := 0; i < len(slots) && i < sourceUserCacheUsers; i++ {
+		e.users[i].Store(sourceUserCachePackUser(slots[i].ID, slots[i].Tick))
+	}
+	table.buckets[sourceUserCacheBucketIndex(key)].ways[way].Store(e)
+	return true
+}
+
+// Dump returns the bucket of key: per way (present, key, lastActive, slots).
+func (v *VerifState) Dump(key [16]byte) (present []bool, keys [][16]byte, last []uint32, slots [][]VerifSlot) {
+	table := v.s.cache.loadTable()
+	if table == nil {
+		return
+	}
+	b := &table.buckets[sourceUserCacheBucketIndex(key)]
+	for w := 0; w < sourceUserCacheWays; w++ {
+		e := b.ways[w].Load()
+		if e == nil {
+			present = append(present, false)
+			keys = append(keys, [16]byte{})
+			last = append(last, 0)
+			slots = append(slots, nil)
+			continue
+		}
+		present = append(present, true)
+		keys = append(keys, e.key)
+		last = append(last, e.lastActive.Load())
+		var ss []VerifSlot
+		for i := 0; i < sourceUserCacheUsers; i++ {
+			id, tick := sourceUserCacheUnpackUser(e.users[i].Load())
+			ss = append(ss, VerifSlot{ID: id, Tick: tick})
+		}
+		slots = append(slots, ss)
+	}
+	return
+}
+
+// TryState calls tryState on this generation.
+func (v *VerifState) TryState(encryptedMeta []byte, source Source, hintMandatory bool) VerifResult {
+	return verifResult(tryState(v.s, encryptedMeta, source, hintMandatory))
+}
+
+// VerifCurrent returns the generation currently published by the registry (nil if none).
+func VerifCurrent(r *Registry) *VerifState {
+	s := r.users.Load()
+	if s == nil {
+		return nil
+	}
+	return &VerifState{s: s}
+}
+
+// VerifPublish swaps in a prepared generation exactly as SetUsers does after buildState.
+func VerifPublish(r *Registry, v *VerifState) {
+	old := r.users.Swap(v.s)
+	if old != nil {
+		old.cache.retire()
+	}
+}
+
+// VerifDiscoverUser calls discoverUser on the registry's publisher with the afterAttempt hook.
+func VerifDiscoverUser(r *Registry, encryptedMeta []byte, source Source, requireCurrent bool, afterAttempt func(*VerifState)) (VerifResult, error) {
+	var hook func(*state)
+	if afterAttempt != nil {
+		hook = func(s *state) { afterAttempt(&VerifState{s: s}) }
+	}
+	res, err := discoverUser(&r.users, &r.hintMandatory, encryptedMeta, source, requireCurrent, hook)
+	if err != nil {
+		return VerifResult{}, err
+	}
+	return verifResult(res), nil
+}
+
+// VerifAuthentication exposes the fields of an Authentication returned by Registry.Discover.
+func VerifAuthentication(a Authentication) (userID uint32, policy string, origin int, gen *VerifState) {
+	if a.generation != nil {
+		gen = &VerifState{s: a.generation}
+	}
+	return a.userID, a.policy.name, int(a.origin), gen
+}
